@@ -19,6 +19,8 @@ import (
 
 	"github.com/youchainhq/go-youchain/common"
 	"github.com/youchainhq/go-youchain/core/types"
+	"github.com/youchainhq/go-youchain/crypto"
+	"github.com/youchainhq/go-youchain/trie"
 	"github.com/youchainhq/go-youchain/you/downloader"
 	"github.com/youchainhq/go-youchain/youdb"
 
@@ -28,6 +30,52 @@ import (
 var loopScenarios = []string{
 	"honest", "late-join", "withheld-by-some", "corrupted-once", "timeout-then-other-serves", "peer-dropped-other-serves",
 	"withheld-by-all", "solo-peer-dropped-mid-request", "cancelled", "invalid-leaf", "solo-peer-times-out",
+	"transient-write-failure", "destination-from-crashed-commit",
+}
+
+// flakyDB is a destination database whose batch writes can fail: the failAt-th batch Write (1-based, counted over all
+// batches) fails; if dead, every later one fails too (a crashed disk), otherwise only that one (a transient hiccup).
+type flakyDB struct {
+	*youdb.MemDatabase
+	mu     sync.Mutex
+	writes int
+	failAt int
+	dead   bool
+	failed int
+}
+
+var errFlaky = fmt.Errorf("injected batch write failure")
+
+type flakyBatch struct {
+	youdb.Batch
+	db *flakyDB
+}
+
+func (f *flakyDB) NewBatch() youdb.Batch { return &flakyBatch{Batch: f.MemDatabase.NewBatch(), db: f} }
+
+func (b *flakyBatch) Write() error {
+	f := b.db
+	f.mu.Lock()
+	f.writes++
+	fail := f.failAt > 0 && (f.writes == f.failAt || (f.dead && f.writes > f.failAt))
+	if fail {
+		f.failed++
+	}
+	f.mu.Unlock()
+	if fail {
+		return errFlaky
+	}
+	return b.Batch.Write()
+}
+
+// bigKVs: enough data (> 100 KiB = youdb.IdealBatchSize) for periodic flushes / intermediate batch writes
+func bigKVs(r *vh.RNG) []kv {
+	n := r.Range(1500, 3500)
+	out := make([]kv, 0, n)
+	for i := 0; i < n; i++ {
+		out = append(out, kv{crypto.Keccak256([]byte{byte(i), byte(i >> 8), byte(r.Intn(256))}), r.Bytes(r.Range(60, 140))})
+	}
+	return out
 }
 
 const loopWatchdog = 90 * time.Second
@@ -194,7 +242,17 @@ func runLoopCase(scen int, seed uint64) loopResult {
 	if name == "invalid-leaf" {
 		k.tags["bad-leaf"] = true
 	}
-	for tries := 0; tries < 20; tries++ {
+	big := name == "transient-write-failure" || name == "destination-from-crashed-commit"
+	var bigkvs []kv
+	if big {
+		kind = "trie"
+		k.kind = "trie"
+		bigkvs = bigKVs(r)
+		mem := youdb.NewMemDatabase()
+		k.roots = append(k.roots, buildTrie(mem, emptyRoot, bigkvs))
+		memToSrc(mem, k)
+	}
+	for tries := 0; tries < 20 && !big; tries++ {
 		k.src, k.srcSeq, k.roots = map[common.Hash][]byte{}, nil, nil
 		if kind == "state" {
 			genStateSource(r, k, false)
@@ -207,7 +265,31 @@ func runLoopCase(scen int, seed uint64) loopResult {
 	}
 	root := k.roots[len(k.roots)-1]
 	dst := youdb.NewMemDatabase()
+	var dstDB youdb.Database = dst
+	var flaky *flakyDB
 	expectOK := true
+	switch name {
+	case "transient-write-failure":
+		// the n-th batch write of the destination fails once (n = 1, 2, 3, then random), then the database works again
+		failAt := scen/len(loopScenarios)%4 + 1
+		if failAt == 4 {
+			failAt = r.Range(1, 8)
+		}
+		flaky = &flakyDB{MemDatabase: dst, failAt: failAt}
+		dstDB = flaky
+	case "destination-from-crashed-commit":
+		// what trie.Database.Commit of the same trie leaves on a disk that dies after k batch writes
+		crash := &flakyDB{MemDatabase: dst, failAt: r.Range(1, 4), dead: true}
+		tdb := trie.NewDatabase(crash)
+		tr, _ := trie.New(emptyRoot, tdb)
+		for _, e := range bigkvs {
+			tr.Update(e.k, e.v)
+		}
+		if croot, err := tr.Commit(nil); err == nil && croot == root {
+			tdb.Commit(croot, false) // fails half-way: dst keeps the batches written before the crash
+		}
+		res.stats["loop-crashed-commit-entries-left"] = dst.Len()
+	}
 	switch name {
 	case "honest", "late-join", "withheld-by-some", "corrupted-once":
 		genInit(r, k)
@@ -220,7 +302,7 @@ func runLoopCase(scen int, seed uint64) loopResult {
 		res.stats["loop-already-complete"]++
 	}
 	n := &loopNet{k: k, peers: map[string]*loopPeer{}, rtt: 3 * time.Second}
-	n.d = downloader.VerifNewLoopDownloader(dst, n.dropPeer)
+	n.d = downloader.VerifNewLoopDownloader(dstDB, n.dropPeer)
 	defer func() {
 		t1 := time.Now()
 		n.d.Terminate()
@@ -331,6 +413,9 @@ func runLoopCase(scen int, seed uint64) loopResult {
 		for i := 0; i < r.Range(1, 3); i++ {
 			n.add(honest(n))
 		}
+	case "transient-write-failure", "destination-from-crashed-commit":
+		n.add(honest(n))
+		n.add(honest(n))
 	case "solo-peer-times-out":
 		expectOK = false
 		n.replace = nil
@@ -371,6 +456,15 @@ func runLoopCase(scen int, seed uint64) loopResult {
 		if !stalled {
 			expectOK = true // the trie was complete before the scripted fault could happen
 		}
+	}
+	if flaky != nil {
+		flaky.mu.Lock()
+		res.stats["loop-batch-writes"] = flaky.writes
+		res.stats["loop-batch-writes-failed"] = flaky.failed
+		if flaky.failed > 0 {
+			expectOK = false // the unchanged loop turns every failed write into a sync error
+		}
+		flaky.mu.Unlock()
 	}
 	ok, why := complete(k, dst, root)
 	res.outcome = "error"
